@@ -366,7 +366,7 @@ def stub_correspondence(ctx, proved):
     rng = ctx.rng
     files = []
     # straight-line functions
-    for m in range(ctx.n(4, 30)):
+    for m in range(ctx.n(3, 30)):
         case = rand_case(rng)
         rows, extra = straight_line_rows(ctx, rng, case)
         hdr, hrows = hydro_rows(rng)
@@ -382,7 +382,7 @@ def stub_correspondence(ctx, proved):
                           jcase(case)))
     # decision path of findPlasmaProfilePoint
     kinds = ["defl", "det", "edge", "noroot", "deflk", "detk"]
-    want = ctx.n(9, 60)
+    want = ctx.n(6, 48)
     done, tries, paths = 0, 0, {}
     while done < want and tries < 20 * want:
         kind = kinds[tries % len(kinds)]
@@ -419,8 +419,15 @@ def stub_correspondence(ctx, proved):
 # direct validation on real models
 # =====================================================================================
 
-TN = 100.0
-MODELS = {"xSM_BM1": None, "xSM_BM1_weak": 1077.5}
+MODELS = {
+    # shipped O(g^2 T^4) Z2 singlet model, benchmark BM1, top quark out of equilibrium
+    "xSM_BM1": dict(kind="xsm", geff=None, gluon=False, Tn=100.0),
+    # the same with 10x the light d.o.f.: weak transition, (T+ - Tn)/Tn < 1e-3 for subsonic
+    # walls; top quark and gluon out of equilibrium (two species)
+    "xSM_BM1_weak": dict(kind="xsm", geff=1077.5, gluon=True, Tn=100.0),
+    # one-field quartic potential of tools/wgmodels.py
+    "quartic1": dict(kind="quartic", Tn=83.0),
+}
 _CACHE = {}
 
 
@@ -431,34 +438,54 @@ def build_model(name):
     if root not in sys.path:
         sys.path.insert(0, root)
     import WallGo
-    from Models.SingletStandardModel_Z2.SingletStandardModel_Z2_Simple import (
-        SingletSM_Z2_Simple, EffectivePotentialxSM_Z2_Simple)
-    from tests.Benchmarks.SingletSM_Z2.Benchmarks_singlet import BM1
-    geff = MODELS[name]
-    model = SingletSM_Z2_Simple(BM1.inputParams)
-    if geff:
-        class ManyLightDof(EffectivePotentialxSM_Z2_Simple):
-            def constantTerms(self, temperature):
-                return -geff * np.pi ** 2 / 90 * temperature ** 4
-        model.effectivePotential = ManyLightDof(model)
-    model.defineParticles(False)
-    veff = model.getEffectivePotential()
-    veff.configureDerivatives(WallGo.VeffDerivativeSettings(1.0, 1.0))
-    veff.effectivePotentialError = 1e-15
-    thermo = WallGo.Thermodynamics(veff, TN, BM1.expectedResults["phaseLocation2"],
-                                   BM1.expectedResults["phaseLocation1"])
+    cfg = MODELS[name]
+    Tn = cfg["Tn"]
+    if cfg["kind"] == "xsm":
+        from Models.SingletStandardModel_Z2.SingletStandardModel_Z2_Simple import (
+            SingletSM_Z2_Simple, EffectivePotentialxSM_Z2_Simple)
+        from tests.Benchmarks.SingletSM_Z2.Benchmarks_singlet import BM1
+        geff = cfg["geff"]
+        model = SingletSM_Z2_Simple(BM1.inputParams)
+        if geff:
+            class ManyLightDof(EffectivePotentialxSM_Z2_Simple):
+                def constantTerms(self, temperature):
+                    return -geff * np.pi ** 2 / 90 * temperature ** 4
+            model.effectivePotential = ManyLightDof(model)
+        model.defineParticles(cfg["gluon"])
+        particles = model.outOfEquilibriumParticles
+        veff = model.getEffectivePotential()
+        veff.configureDerivatives(WallGo.VeffDerivativeSettings(1.0, 1.0))
+        veff.effectivePotentialError = 1e-15
+        thermo = WallGo.Thermodynamics(veff, Tn, BM1.expectedResults["phaseLocation2"],
+                                       BM1.expectedResults["phaseLocation1"])
+        ranges = ((50.0, 150.0, 0.1), (50.0, 150.0, 0.1))
+        nf = 2
+    else:
+        import wgmodels
+        from WallGo import Particle, Fields
+        veff = wgmodels.quartic1(D=0.2, E=0.05, lam=0.1, T0=80.0, g=100.0)
+        ex = wgmodels.quartic1_exact(**veff.params)
+        veff.configureDerivatives(WallGo.VeffDerivativeSettings(
+            temperatureVariationScale=1.0, fieldValueVariationScale=10.0))
+        veff.effectivePotentialError = 1e-15
+        thermo = WallGo.Thermodynamics(veff, Tn, Fields([ex["phi_broken"](Tn)]), Fields([0.0]))
+        ranges = ((80.5, 120.0, 0.05), (40.0, ex["Tspin_broken"] * 0.9999, 0.05))
+        particles = [Particle("top", index=0, msqVacuum=lambda f: 0.5 * f.getField(0) ** 2,
+                              msqDerivative=lambda f: np.transpose([f.getField(0)]),
+                              statistics="Fermion", totalDOFs=12)]
+        nf = 1
     thermo.freeEnergyHigh.disableAdaptiveInterpolation()
     thermo.freeEnergyLow.disableAdaptiveInterpolation()
-    thermo.freeEnergyHigh.tracePhase(50.0, 150.0, 0.1)
-    thermo.freeEnergyLow.tracePhase(50.0, 150.0, 0.1)
+    thermo.freeEnergyHigh.tracePhase(*ranges[0])
+    thermo.freeEnergyLow.tracePhase(*ranges[1])
     thermo.setExtrapolate()
     hydro = WallGo.Hydrodynamics(thermo, 10.0, 0.01, 1e-10, 1e-10)
     grid = WallGo.grid3Scales.Grid3Scales(22, 11, 0.2, 0.2, 0.05, 100)
     boltzmann = WallGo.BoltzmannSolver(grid, basisM="Cardinal", basisN="Chebyshev")
-    boltzmann.updateParticleList(model.outOfEquilibriumParticles)
-    eom = WallGo.EOM(boltzmann, thermo, hydro, grid, 2, 0.0, (0.1, 100.0), (-10.0, 10.0),
+    boltzmann.updateParticleList(particles)
+    eom = WallGo.EOM(boltzmann, thermo, hydro, grid, nf, 0.0, (0.1, 100.0), (-10.0, 10.0),
                      includeOffEq=True)
-    _CACHE[name] = (veff, thermo, hydro, grid, eom)
+    _CACHE[name] = (veff, thermo, hydro, grid, eom, Tn, nf)
     return _CACHE[name]
 
 
@@ -476,7 +503,7 @@ def lorentz(v):
     return L
 
 
-def make_moments(seed, shape, nP, z, width, amp, msq):
+def make_moments(seed, shape, nP, z, width, amp, msq, TN):
     """Deltas as moments of explicit on-shell momentum ensembles (3 momenta per particle and
     grid point) and, independently, the ensembles themselves.
     shape: 'none' | 'bump' (decays away from the wall) | 'flat' (same size everywhere)"""
@@ -517,17 +544,17 @@ def run_profile(name, vw, widths, offsets, shape, seed, amp, errTol=1e-6):
     """one call of the real EOM.findPlasmaProfile + independent recomputation"""
     from WallGo.containers import BoltzmannDeltas, WallParams
     from WallGo.polynomial import Polynomial
-    veff, thermo, hydro, grid, eom = build_model(name)
+    veff, thermo, hydro, grid, eom, TN, nf = build_model(name)
     eom.errTol = errTol                     # read by findPlasmaProfilePoint at call time
     c1, c2, Tp, Tm, vMid = hydro.findHydroBoundaries(vw)
     vp, vm, _, _ = hydro.findMatching(vw)
-    out = dict(c1=c1, c2=c2, Tp=Tp, Tm=Tm, vMid=vMid, vp=vp, vm=vm, vJ=hydro.vJ)
+    out = dict(c1=c1, c2=c2, Tp=Tp, Tm=Tm, vMid=vMid, vp=vp, vm=vm, vJ=hydro.vJ, Tn=TN)
     if vMid is None or (c1 == 0 and c2 == 0):
         out["nohydro"] = True
         return out
     out["branch"] = "detonation" if vw > hydro.vJ else ("hybrid" if vm < vw - 1e-9
                                                          else "deflagration")
-    wp = WallParams(widths=np.array(widths) / TN, offsets=np.array(offsets))
+    wp = WallParams(widths=np.array(widths[:nf]) / TN, offsets=np.array(offsets[:nf]))
     eom._updateGrid(wp, vMid)               # pylint: disable=protected-access
     phiLow = thermo.freeEnergyLow(Tm).fieldsAtMinimum
     phiHigh = thermo.freeEnergyHigh(Tp).fieldsAtMinimum
@@ -537,13 +564,25 @@ def run_profile(name, vw, widths, offsets, shape, seed, amp, errTol=1e-6):
     parts = eom.particles
     msq = [[float(np.ravel(p.msqVacuum(fields.getFieldPoint(k)))[0]) for k in range(n)]
            for p in parts]
-    D, ens = make_moments(seed, shape, len(parts), z, widths[0] / TN, amp, msq)
+    D, ens = make_moments(seed, shape, len(parts), z, widths[0] / TN, amp, msq, TN)
     poly = lambda a: Polynomial(a, grid, direction=("Array", "z"), basis=("Array", "Cardinal"))
     deltas = BoltzmannDeltas(Delta00=poly(D["00"]), Delta02=poly(D["02"]),
                              Delta20=poly(D["20"]), Delta11=poly(D["11"]))
-    with Recorder() as rec:
-        T, v = eom.findPlasmaProfile(c1, c2, vMid, fields, dPhidz, deltas, Tp, Tm)
+    calls = []
+    orig = eom.findPlasmaProfilePoint
+
+    def spy(index, *a, **k):
+        r = orig(index, *a, **k)
+        calls.append((int(index), float(r[0]), float(r[1])))
+        return r
+    eom.findPlasmaProfilePoint = spy          # instance attribute, removed below
+    try:
+        with Recorder() as rec:
+            T, v = eom.findPlasmaProfile(c1, c2, vMid, fields, dPhidz, deltas, Tp, Tm)
+    finally:
+        del eom.findPlasmaProfilePoint
     out["success"] = bool(eom.successTemperatureProfile)
+    out["calls"] = calls
     pts = []
     for k in range(n):
         fp = fields.getFieldPoint(k)
@@ -629,6 +668,20 @@ def judge(ctx, name, vw, widths, offsets, shape, seed, amp, res, stats, errTol=1
             if nm.startswith("c1"):
                 ctx.fail_input("findHydroBoundaries: c1 != -wHighT(T+) gamma^2 v+ (rel %.2e)"
                                % val, rep, key="c1-convention")
+    # theorem profile_success_flag on the real loop: the flag is true exactly when every point
+    # solver call returned T > 0; stored values are the point outputs / a copy of the previous
+    calls, Ts, vs = res["calls"], res["T"], res["v"]
+    ctx.count("success_flag_checked", nontrivial=False)
+    sem_ok = [c[0] for c in calls] == list(range(len(Ts))) and \
+        res["success"] == all(c[1] > 0 for c in calls)
+    for k, Tc, vc in (calls if sem_ok else []):
+        want = (Tc, vc) if Tc > 0 else ((Ts[k - 1], vs[k - 1]) if k > 0 else (0.0, 0.0))
+        sem_ok = sem_ok and (Ts[k], vs[k]) == want
+    if not sem_ok:
+        ctx.fail_input("findPlasmaProfile: success flag / stored profile do not follow the "
+                       "point solver outputs (flag=%s, point T>0: %s) [%s vw=%g]" % (
+                           res["success"], [c[1] > 0 for c in calls], tag, vw), rep,
+                       key="success-flag-semantics")
     if not res["success"]:
         stats["nosuccess"] = stats.get("nosuccess", 0) + 1
         if shape == "none":
@@ -695,17 +748,20 @@ def judge(ctx, name, vw, widths, offsets, shape, seed, amp, res, stats, errTol=1
         eb = max(abs(T[0] / res["Tm"] - 1), abs(v[0] + res["vm"]))
         ef = max(abs(T[-1] / res["Tp"] - 1), abs(v[-1] + res["vp"]))
         stats["worst_asym"] = max(stats.get("worst_asym", 0.0), eb, ef)
+        if max(eb, ef) >= stats.get("worst_asym", 0.0):
+            stats["worst_asym_where"] = (tag, vw, errTol, "back %.1e front %.1e" % (eb, ef))
         ctx.count("asymptote_checked", nontrivial=False, bucket=br)
-        if eb > TOL_ASYM:
+        tol_a = TOL_ASYM if shape == "none" else 10 * TOL_ASYM   # moments do not vanish at the ends
+        if eb > tol_a:
             ctx.fail_input("behind the wall the profile tends to (T=%.6g, v=%.6g) instead of "
                            "(T-=%.6g, -v-=%.6g) [%s vw=%g, (T+-Tn)/Tn=%.2e]" % (
                                T[0], v[0], res["Tm"], -res["vm"], tag, vw,
-                               (res["Tp"] - TN) / TN), rep, key="asymptote-back:" + br)
-        if ef > TOL_ASYM:
+                               (res["Tp"] - res["Tn"]) / res["Tn"]), rep, key="asymptote-back:" + br)
+        if ef > tol_a:
             ctx.fail_input("in front of the wall the profile tends to (T=%.6g, v=%.6g) instead "
                            "of (T+=%.6g, -v+=%.6g) [%s vw=%g, (T+-Tn)/Tn=%.2e]" % (
                                T[-1], v[-1], res["Tp"], -res["vp"], tag, vw,
-                               (res["Tp"] - TN) / TN), rep, key="asymptote-front:" + br)
+                               (res["Tp"] - res["Tn"]) / res["Tn"]), rep, key="asymptote-front:" + br)
 
 
 def direct_validation(ctx):
@@ -714,17 +770,21 @@ def direct_validation(ctx):
     plan = []
     # (model, velocity window) -- windows relative to the model's own cs / vJ, see below
     for name in MODELS:
-        _, thermo, hydro, _, _ = build_model(name)
+        _, thermo, hydro, _, _, TN, _ = build_model(name)
         vJ = hydro.vJ
         cs = math.sqrt(float(thermo.csqLowT(TN)))
-        weak = MODELS[name] is not None
-        nd, nh, nt = ctx.n(3, 14), ctx.n(2, 8), ctx.n(2, 8)
+        weak = MODELS[name].get("geff") is not None
+        nd, nh, nt = ctx.n(2, 14), ctx.n(1, 8), ctx.n(1, 8)
+        if name == "quartic1":
+            nd, nh, nt = ctx.n(1, 8), ctx.n(1, 5), ctx.n(1, 5)
         if weak:
             # weak transition: (T+ - Tn)/Tn < 1e-3 for subsonic walls, v+ > 1/3
             vws = [rng.uniform(0.35, 0.44) for _ in range(nd)] + [rng.uniform(0.2, 0.33)]
         else:
             vws = [rng.uniform(max(hydro.vMin, 0.05) + 0.02, cs - 0.02) for _ in range(nd)]
-        vws += [rng.uniform(cs + 0.004, vJ - 0.004) for _ in range(nh)]
+        # (quartic1: the broken phase ends at its spinodal; stay where T- is tabulated)
+        hyb_hi = min(vJ - 0.004, cs + 0.03) if name == "quartic1" else vJ - 0.004
+        vws += [rng.uniform(cs + 0.004, hyb_hi) for _ in range(nh)]
         vws += [rng.uniform(vJ + 0.01, 0.95) for _ in range(nt)]
         for vw in vws:
             plan.append((name, round(vw, 4)))
@@ -754,13 +814,15 @@ def direct_validation(ctx):
                 judge(ctx, name, vw, widths, offsets, shape, seed, amp, res3, stats, errTol=1e-3)
             if len(ctx.cov["samples"]) < 6 and shape == "bump":
                 ctx.sample(dict(model=name, vw=vw, branch=res["branch"],
-                                Tp_minus_Tn_rel=(res["Tp"] - TN) / TN,
+                                Tp_minus_Tn_rel=(res["Tp"] - res["Tn"]) / res["Tn"],
                                 worst=[stats.get("worst30"), stats.get("worst33")]))
-    ctx.log("direct validation: worst |dT30|/|c1| = %.2e, worst |dT33|/|c2| (conserving "
+    ctx.log("direct validation: %d profiles;" % ctx.cov["correspondence"].get("profile", 0),
+            "worst |dT30|/|c1| = %.2e, worst |dT33|/|c2| (conserving "
             "points) = %.2e, worst asymptote error = %.2e, profiles without success: %d" % (
                 stats.get("worst30", 0), stats.get("worst33", 0), stats.get("worst_asym", 0),
                 stats.get("nosuccess", 0)))
-    ctx.log("worst conserving T33 residual at", stats.get("worst33_where"))
+    ctx.log("worst conserving T33 residual at", stats.get("worst33_where"),
+            "; worst asymptote at", stats.get("worst_asym_where"))
     f = stats.get("finding", [])
     if f:
         f.sort(key=lambda d: -abs(d["r33"]))
